@@ -91,7 +91,7 @@ Lemma well_locked_sync_canon sk l :
   well_locked_sync sk = true -> expand_sync sk l = canon_sa l.
 Proof.
   unfold well_locked_sync, expand_sync. intros H. apply evs_eqb_eq in H.
-  rewrite walk_sync_filter, H. unfold canon_sync, canon_sa.
+  rewrite H. unfold canon_sync, canon_sa.
   cbn [walk_sync sync_relevant negb top_act is_store String.eqb Ascii.eqb
        Bool.eqb app loop_items].
   reflexivity.
